@@ -315,7 +315,7 @@ class DocGen:
         if self.wrappers:
             shape = r.choice(["bare", "bare", "lambda", "lambda", "call", "lambda-call", "with", "assert", "paren", "lambda-with", "lambda-assert", "mixed"])
             heads = ["{ pkgs }:", "{ pkgs, lib }:", "{\n  stdenv,\n  fetchurl,\n  ...\n}:", "x:", "args@{ pkgs, ... }:", "{ }:"]
-            calls = ["stdenv.mkDerivation", "f", "mkShell", "pkgs.buildEnv", "stdenv.mkDerivation rec"]
+            calls = ["stdenv.mkDerivation", "f", "mkShell", "pkgs.buildEnv", "stdenv.mkDerivation rec", "f a", "(f) a", "(f a) b", "(lib.makeOverridable stdenv.mkDerivation) extra", "(f)", "((f))", "f (g 1)", "(f a b) c"]
             if shape in ("lambda", "lambda-call", "lambda-with", "lambda-assert", "mixed"):
                 head = r.choice(heads)
                 inline_body = "\n" not in head and r.random() < 0.15
